@@ -7,8 +7,14 @@
 From Coq Require Import String.
 From PS Require Import Base.Bytes Base.Result Model.Converter Model.Command Model.Ctor Model.InitCdb Model.CorrUtil.
 From PS Require Import Proofs.Codec Proofs.Layout Proofs.CtorSound Proofs.CdbSpec Proofs.Opcodes.
-From PS Require Import Spec.SAM Spec.T10Opcodes Spec.CdbFormats Gen.Tables Gen.Opcodes Gen.Ctors.
+From PS Require Import Spec.SAM Spec.T10Opcodes Spec.CdbFormats Gen.Tables Gen.Opcodes Gen.Ctors Gen.Misc.
 Open Scope string_scope.
+
+(* class SCSICommand is what Model/Command.v models: __init__, build_cdb, marshall_cdb, unmarshall_cdb, unmarshall have exactly the text
+   the model was written for, the properties only read / write their own slot, and the class holds no other member or class-level object
+   (REGENERATED inventory; anything else — a cache of field values, a defaults dictionary, a new helper — is listed here) *)
+Theorem C01_command_base_is_the_modelled_text : command_base_unknown = [].
+Proof. vm_compute. reflexivity. Qed.
 
 Definition class_ok (kc : string * ctor) : bool :=
   match lookup (fst kc) cdb_specs with
